@@ -686,9 +686,10 @@ impl ChessBoard {
 
                 /* Check if promotion option contain any piece. If yes, we need to ensure that this
                 is a Pawn move and the pawn is moving to opposite side's back-rank */
-                if (m.get_promotion().is_some())
-                    & (m.get_piece_type() != Pawn)
-                    & (destination.get_rank() != self.side_to_move.get_back_rank())
+                let is_promotion_move = (m.get_piece_type() == Pawn)
+                    & (destination.get_rank() == self.side_to_move.get_promotion_rank());
+                if (m.get_promotion().is_some() != is_promotion_move)
+                    | (m.get_promotion() == Some(King))
                 {
                     return false;
                 }
